@@ -174,7 +174,7 @@ func RunC18(k *fw.Case) {
 	dc.Add("rv", vals.rv)
 	rb := builder.NewRuleBuilder(dc)
 	if err := trace.CompileLocked(func() error { return rb.BuildRuleFromString(text.String()) }); err != nil {
-		k.Inconclusive("generated conc text does not compile: " + trunc(err.Error(), 300) + " text: " + trunc(text.String(), 500))
+		noCompile(k, "conc", err, text.String())
 		return
 	}
 	// the compiled blocks are executed several times (fresh log, fresh holds each time): conc
